@@ -150,7 +150,7 @@ var MutationKinds = []string{
 	"binder-to-scope", "case-payload-to-scope", "case-payload-to-scope", "binder-to-alias", "alias-to-live", "cut-reuse-self-as-name", "drop-statement", "dup-statement", "rename-binder", "rename-use", "wait-to-drop", "insert-drop", "insert-split",
 	"extra-provider", "swap-send-args", "wrong-label", "drop-branch", "dup-branch", "extra-branch", "arity-minus", "arity-plus",
 	"wrong-callee", "self-misplaced", "ann-inequivalent", "ann-mode", "param-mode", "ret-mode", "prc-mode", "ann-equivalent",
-	"swap-statements", "cut-body-continuation", "remove-ann", "polarity", "self-arg", "shift-words", "typedef-change", "toplevel-cycle", "merge-binders", "merge-binders",
+	"swap-statements", "cut-body-continuation", "remove-ann", "polarity", "self-arg", "shift-words", "typedef-change", "toplevel-cycle", "merge-binders", "merge-binders", "dup-function",
 }
 
 // Mutate applies one single-site edit to a clone of p. ok=false when the chosen operator has
@@ -263,7 +263,29 @@ func (d D) Mutate(p *ast.Program, kind string) (*ast.Program, string, bool) {
 		c.dep.Body = &ast.Term{Kind: ast.TWait, X: ast.N(c.top.Providers[0]), K: c.dep.Body}
 		return q, fmt.Sprintf("prc[%s] now waits for prc[%s], which (indirectly) uses it", c.dep.Providers[0], c.top.Providers[0]), true
 	case "drop-statement": // the channel is then never consumed
-		r, ok := pick(func(r termRef) bool { return r.T.Kind == ast.TWait || r.T.Kind == ast.TDrop })
+		// sites are grouped by the form the statement's continuation ends in (close, fwd, send,
+		// select, cast, call, case…) and the group is drawn first: every rule that must notice the
+		// left-over name gets its share, however rare its form is
+		groups := map[ast.TermKind][]termRef{}
+		var kindsSeen []ast.TermKind
+		for _, r := range terms {
+			if r.T.Kind != ast.TWait && r.T.Kind != ast.TDrop {
+				continue
+			}
+			e := r.T
+			for e.K != nil {
+				e = e.K
+			}
+			if _, ok := groups[e.Kind]; !ok {
+				kindsSeen = append(kindsSeen, e.Kind)
+			}
+			groups[e.Kind] = append(groups[e.Kind], r)
+		}
+		if len(kindsSeen) == 0 {
+			return nil, "", false
+		}
+		grp := groups[kindsSeen[d.Pick(len(kindsSeen), "terminal")]]
+		r, ok := grp[d.Pick(len(grp), "site")], true
 		if !ok {
 			return nil, "", false
 		}
@@ -492,6 +514,38 @@ func (d D) Mutate(p *ast.Program, kind string) (*ast.Program, string, bool) {
 		}
 		r.Set(n)
 		return q, fmt.Sprintf("inserted %s of %s in %s", kind[7:], x, declName(r.Decl)), true
+	case "dup-function": // a second definition under the same name, with one more parameter or the same ones
+		var idx []int
+		for i, dc := range q.Decls {
+			if dc.Kind == ast.DFun && dc.Body != nil && dc.Ty != nil {
+				idx = append(idx, i)
+			}
+		}
+		if len(idx) == 0 {
+			return nil, "", false
+		}
+		i := idx[d.Pick(len(idx), "fun")]
+		orig := q.Decls[i]
+		cp := &ast.Decl{Kind: ast.DFun, Name: orig.Name, Ty: orig.Ty.Clone(), Explicit: orig.Explicit, Body: orig.Body.Clone()}
+		for _, pa := range orig.Params {
+			cp.Params = append(cp.Params, ast.Param{Name: pa.Name, Ty: pa.Ty.Clone()})
+		}
+		what := "the same parameters"
+		if d.Likely(75, "otherarity") {
+			// one more parameter of type 1 at the provider's mode, waited for first: well typed on its own
+			m := orig.Ty.M
+			one := ast.One(m)
+			one.Ann = m.String()
+			cp.Params = append(cp.Params, ast.Param{Name: "zz'", Ty: one})
+			cp.Body = &ast.Term{Kind: ast.TWait, X: ast.N("zz'"), K: cp.Body}
+			what = "one more parameter"
+		}
+		pos := i // before the original: a checker that keeps the last definition per name sees the original
+		if d.Bool("after") {
+			pos = i + 1
+		}
+		q.Decls = append(q.Decls[:pos], append([]*ast.Decl{cp}, q.Decls[pos:]...)...)
+		return q, fmt.Sprintf("function %s defined a second time with %s", orig.Name, what), true
 	case "extra-provider":
 		var c []*ast.Decl
 		for _, dc := range q.Decls {
@@ -502,9 +556,22 @@ func (d D) Mutate(p *ast.Program, kind string) (*ast.Program, string, bool) {
 		if len(c) == 0 {
 			return nil, "", false
 		}
-		dc := c[d.Pick(len(c), "prc")]
+		// processes whose type is just a name (its mode comes from the definition) count three times
+		var w []*ast.Decl
+		for _, dc := range c {
+			w = append(w, dc)
+			if dc.Ty != nil && dc.Ty.K == ast.KName {
+				w = append(w, dc, dc)
+			}
+		}
+		dc := w[d.Pick(len(w), "prc")]
 		dc.Providers = append(dc.Providers, dc.Providers[0]+"_2")
-		return q, "added a second provider name to prc[" + dc.Providers[0] + "]", true
+		note := ""
+		if dc.Ty != nil && dc.Ty.K == ast.KName && dc.Ty.Ann != "" && d.Bool("bareName") {
+			dc.Ty.Ann = "" // the definition fixes the mode: the written annotation is redundant
+			note = " (and its redundant mode annotation removed)"
+		}
+		return q, "added a second provider name to prc[" + dc.Providers[0] + "]" + note, true
 	case "swap-send-args":
 		r, ok := pick(func(r termRef) bool { return r.T.Kind == ast.TSend })
 		if !ok {
